@@ -945,6 +945,53 @@ fn c06(ctx: &BoardCtx, p: &Pos, fen: &str, b: &mut Bitboard) {
         // C03's business; nothing more can be judged on this board
         return;
     }
+    // the delta of a move is a function of the move alone, whatever was asked before: right before
+    // each move its closest neighbour is asked — the same piece kind moving between the same squares
+    // with the colours of all pieces swapped (squares kept, side to move swapped), and the other
+    // moves of this position (a quarter of the states)
+    if h % 4 == 0 {
+        let mut t = p.clone();
+        for sq in 0..64usize {
+            let x = t.board[sq];
+            if x != EMPTY {
+                t.board[sq] = pc(1 - pc_color(x), pc_kind(x));
+            }
+        }
+        t.stm = 1 - p.stm;
+        t.castle = 0;
+        t.ep = NO_EP;
+        let twin_moves: Vec<Move> = match Bitboard::from_fen_string(&t.to_fen()) {
+            Ok(tb) => tb.generate_pseudo_legal_moves(),
+            Err(_) => Vec::new(),
+        };
+        for rm in &ref_legal {
+            let rk = mkey_ref(rm);
+            let sm = match pseudo.iter().find(|m| mkey_sub(m) == rk) {
+                Some(m) => *m,
+                None => continue,
+            };
+            let alone = Bitboard::zobrist_xor(sm);
+            let mut neighbours: Vec<Move> = twin_moves.iter().filter(|m| mkey_sub(m) == rk && m.get_piece_moved() == sm.get_piece_moved()).copied().collect();
+            if let Some(other) = pseudo.iter().find(|m| m.bits != sm.bits) {
+                neighbours.push(*other);
+            }
+            let unrelated = pseudo.iter().find(|m| m.get_source_square() != sm.get_source_square()).copied();
+            for nb in neighbours {
+                // unrelated move, neighbour, the move itself: whatever a previous answer is
+                // remembered under, the neighbour's is the freshest one when the move is asked
+                if let Some(u) = unrelated {
+                    let _ = Bitboard::zobrist_xor(u);
+                }
+                let _ = Bitboard::zobrist_xor(nb);
+                let again = Bitboard::zobrist_xor(sm);
+                *local.entry("deltas_asked_again_right_after_a_neighbouring_move").or_insert(0) += 1;
+                if again != alone {
+                    ctx.viol(format!("hash_delta_depends_on_the_previous_call:{}", class_of(rm)), fen, json!({"move": rm.uci(), "delta": [alone.0, alone.1], "delta_after_asking_for_a_neighbouring_move_first": [again.0, again.1], "neighbour_side_to_move": nb.get_side_to_move(), "neighbour": nb.to_uci_string()}));
+                    break;
+                }
+            }
+        }
+    }
     // clocks must not matter
     for (dh, df) in [(120u64, 7u64)] {
         let mut q = p.clone();
